@@ -294,7 +294,7 @@ package yang
 // The `set` closure of Type.resolve: a member without a value/position takes
 // the next value, an explicit one is parsed and must fit int64; an error
 // leaves the enumeration untouched.
-//@ func (*Type).resolve$1 props C14
+//@ func (*Type).resolve$set props C14
 //@   requires enumInv(e)
 //@   ensures  enumInv(e)
 //@   ensures  value == nil && result == nil ==> !old(has(e.ToInt, name)) && e.ToInt[name] == (old(len(e.ToInt)) == 0 ? 0 : old(e.last) + 1)
@@ -499,7 +499,7 @@ package yang
 // Processed-tree assumptions (established by the unverified builder): modules
 // are AST roots and belong to a module set, the root of every entry tree was
 // made from a module.
-//@ pred modOK(m *Module) = m == nil || (nodeParent(iface(m)) == nil && m.Modules != nil && m.Modules.Modules != nil)
+//@ pred modOK(m *Module) = m == nil || (nodeParent(iface(m)) == nil && m.Modules != nil && m.Modules.Modules != nil && (forall i int :: 0 <= i && i < len(m.Include) ==> m.Include[i] != nil))
 //@ pred rootOK(x *Entry) = x == nil || x.Parent != nil || (typeis(x.Node, *Module) && asptr(x.Node, *Module) != nil)
 //
 //@ func module props C17 C12
@@ -793,14 +793,42 @@ package yang
 //@   safe
 // A foreign prefix denotes the top level of exactly the module the referencing
 // module imports under that prefix: findExternal looks nowhere else.
+//@ pred inTopLevel(d *typeDictionary, m *Module, name string, td *Typedef) = td != nil && (dictFind(d, iface(m), name) != nil ? td == dictFind(d, iface(m), name)
+//@     : (exists j int :: 0 <= j && j < len(m.Include) && m.Include[j] != nil && m.Include[j].Module != nil && td == dictFind(d, iface(m.Include[j].Module), name)))
 //@ func (*typeDictionary).findExternal props C09
 //@   requires d != nil && (n != nil ==> rootOf(n) != nil && rootOf(n).Modules != nil)
 //@   requires n != nil ==> (forall i int :: 0 <= i && i < len(rootOf(n).Import) ==> rootOf(n).Import[i] != nil && rootOf(n).Import[i].Prefix != nil)
+//@   requires forall m *Module :: modOK(m)
 //@   ensures  result1 == nil ==> result != nil && n != nil
 //@   ensures  result1 != nil ==> result == nil
-//@   ensures  result1 == nil && prefix != "" && prefix != old(ownPrefix(rootOf(n))) ==> result == dictFind(d, iface(importOf(old(rootOf(n)), prefix)), name)
-//@   ensures  result1 == nil && (prefix == "" || prefix == old(ownPrefix(rootOf(n)))) ==> result == dictFind(d, iface(old(rootOf(n))), name)
+//@   ensures  result1 == nil ==> inTopLevel(d, (prefix == "" || prefix == old(ownPrefix(rootOf(n)))) ? old(rootOf(n)) : importOf(old(rootOf(n)), prefix), name, result)
 //@   safe
+//@   loop 1
+//@     invariant forall j int :: 0 <= j && j < _k ==> (root.Include[j].Module == nil || dictFind(d, iface(root.Include[j].Module), name) == nil)
+
+// Type.resolve, the binding step. Before the typedef found is itself resolved
+// (the first call of Typedef.resolve), it is: the built-in of that name; else,
+// for a name without prefix or with the module's own prefix, the typedef of
+// the nearest enclosing scope (scopeFind walks the AST parents), and only when
+// no scope has one, a top-level typedef of a submodule the module includes;
+// else a top-level typedef of exactly the module imported under the prefix.
+// The rest of Type.resolve (restrictions, unions) is outside this contract.
+//@ spec scopeFind(d *typeDictionary, n Node, name string) *Typedef = n == nil ? nil : (dictFind(d, n, name) != nil ? dictFind(d, n, name) : scopeFind(d, nodeParent(n), name))
+//@ pred localName(t *Type) = pfxOf(t.Name) == "" || pfxOf(t.Name) == ownPrefix(rootOf(iface(t)))
+//@ func (*Type).resolve props C09
+//@   requires t != nil && d != nil && rootOf(iface(t)) != nil && rootOf(iface(t)).Modules != nil && (forall m *Module :: modOK(m))
+//@   requires forall i int :: 0 <= i && i < len(rootOf(iface(t)).Import) ==> rootOf(iface(t)).Import[i] != nil && rootOf(iface(t)).Import[i].Prefix != nil
+//@   only before: loop1/ loop2/ pre:RootNode/ pre:(*typeDictionary).find pre:getPrefix pre:(*typeDictionary).findExternal invoke
+//@   before[a-built-in-name-denotes-the-built-in] (*Typedef).resolve old(BaseTypedefs[t.Name]) != nil ==> arg0 == old(BaseTypedefs[t.Name])
+//@   before[a-local-name-binds-to-the-nearest-enclosing-scope] (*Typedef).resolve old(BaseTypedefs[t.Name]) == nil && old(localName(t)) && scopeFind(d, iface(t), baseOf(t.Name)) != nil ==> arg0 == scopeFind(d, iface(t), baseOf(t.Name))
+//@   before[then-to-the-submodules-the-module-includes] (*Typedef).resolve old(BaseTypedefs[t.Name]) == nil && old(localName(t)) && scopeFind(d, iface(t), baseOf(t.Name)) == nil
+//@            ==> arg0 != nil && (exists j int :: 0 <= j && j < len(rootOf(iface(t)).Include) && arg0 == dictFind(d, boxptr(rootOf(iface(t)).Include[j].Module), baseOf(t.Name)))
+//@   before[a-foreign-prefix-denotes-the-module-imported-under-it] (*Typedef).resolve old(BaseTypedefs[t.Name]) == nil && !old(localName(t))
+//@            ==> inTopLevel(d, importOf(rootOf(iface(t)), old(pfxOf(t.Name))), old(baseOf(t.Name)), arg0)
+//@   loop 1
+//@     invariant scopeFind(d, n, name) == scopeFind(d, iface(t), name)
+//@   loop 2
+//@     invariant scopeFind(d, iface(t), name) == nil && (forall j int :: 0 <= j && j < _k ==> dictFind(d, boxptr(root.Include[j].Module), name) == nil)
 
 // ---------------------------------------------------------------------------
 // C11: identities.
